@@ -2,6 +2,7 @@ import AffVerif.Proofs.VecLemmas
 import AffVerif.Proofs.ArithLift
 import AffVerif.Proofs.SchemaLemmas
 import AffVerif.Proofs.ChainLemmas
+import AffVerif.Proofs.KeepLemmas
 /-!
 # C16 — affine functions obey their algebra and named constructors their names
 
@@ -161,5 +162,122 @@ end ordered
 
 example : (Aff.compose (⟨[[1, 2]], [3], 2⟩ : Aff Int) ⟨[[1, 0], [0, 1]], [1, 1], 2⟩).apply [5, 7]
     = (⟨[[1, 2]], [3], 2⟩ : Aff Int).apply ((⟨[[1, 0], [0, 1]], [1, 1], 2⟩ : Aff Int).apply [5, 7]) := by decide
+
+section conversions
+variable {α : Type} [Field α] [LinearOrder α] [IsStrictOrderedRing α]
+
+/-- how the rows of the function returned by `convert_to(repr)` are read as inequalities -/
+def PRepr.holds (r : Poly.PRepr) (q : Aff α) (x : List α) : Prop :=
+  ∀ rb ∈ q.rows,
+    match r with
+    | .leqBias => dot rb.1 x ≤ rb.2
+    | .biasLeqZero => dot rb.1 x + rb.2 ≤ 0
+    | .geqBias => rb.2 ≤ dot rb.1 x
+    | .biasGeqZero => 0 ≤ dot rb.1 x + rb.2
+
+theorem forall_zip_vneg_right (M : Mat α) (b : List α) (P : List α → α → Prop) :
+    (∀ rb ∈ M.zip (vneg b), P rb.1 rb.2) ↔ (∀ rb ∈ M.zip b, P rb.1 (-rb.2)) := by
+  unfold vneg
+  induction M generalizing b with
+  | nil => simp
+  | cons r M ih =>
+    cases b with
+    | nil => simp
+    | cons b0 b => simp only [List.map_cons, List.zip_cons_cons, List.forall_mem_cons, ih b]
+
+theorem forall_zip_matNeg_left (M : Mat α) (b : List α) (P : List α → α → Prop) :
+    (∀ rb ∈ (matNeg M).zip b, P rb.1 rb.2) ↔ (∀ rb ∈ M.zip b, P (vneg rb.1) rb.2) := by
+  unfold matNeg
+  induction M generalizing b with
+  | nil => simp
+  | cons r M ih =>
+    cases b with
+    | nil => simp
+    | cons b0 b => simp only [List.map_cons, List.zip_cons_cons, List.forall_mem_cons, ih b]
+
+/-- every `PolyRepr`: the converted rows, read in the requested representation, are the half-spaces of the polytope -/
+theorem C16_convert_to (p : Aff α) (r : Poly.PRepr) (x : List α) :
+    PRepr.holds r (Poly.convertTo p r) x ↔ Poly.Mem p x := by
+  unfold PRepr.holds Poly.Mem Aff.rows
+  cases r with
+  | leqBias => simp [Poly.convertTo]
+  | biasLeqZero =>
+    simp only [Poly.convertTo]
+    rw [forall_zip_vneg_right p.mat p.bias (fun a b => dot a x + b ≤ 0)]
+    constructor <;> intro h rb hrb <;> have := h rb hrb <;> linarith
+  | geqBias =>
+    simp only [Poly.convertTo]
+    rw [forall_zip_vneg_right (matNeg p.mat) p.bias (fun a b => b ≤ dot a x),
+      forall_zip_matNeg_left p.mat p.bias (fun a b => -b ≤ dot a x)]
+    constructor <;> intro h rb hrb <;> have := h rb hrb <;> simp only [dot_vneg_left] at * <;> linarith
+  | biasGeqZero =>
+    simp only [Poly.convertTo]
+    rw [forall_zip_matNeg_left p.mat p.bias (fun a b => 0 ≤ dot a x + b)]
+    constructor <;> intro h rb hrb <;> have := h rb hrb <;> simp only [dot_vneg_left] at * <;> linarith
+
+theorem vadd_getElem (a b : List α) (i : Nat) (h : i < (vadd a b).length) :
+    (vadd a b)[i] = a[i]'(by rw [vadd_length] at h; omega) + b[i]'(by rw [vadd_length] at h; omega) := by
+  induction a generalizing b i with
+  | nil => simp at h
+  | cons a0 a ih =>
+    cases b with
+    | nil => simp at h
+    | cons b0 b =>
+      cases i with
+      | zero => simp [vadd]
+      | succ i => simp only [vadd, List.getElem_cons_succ]; exact ih b i _
+
+/-- `row(i)`: the one-row function computing output `i` -/
+theorem C16_row (f : Aff α) (i : Nat) (x : List α) (hi : i < f.mat.length) (hb : f.bias.length = f.mat.length) :
+    (f.row i).apply x = [(f.apply x).getD i 0] := by
+  unfold Aff.row Aff.apply
+  simp only [matVec, List.map_cons, List.map_nil, vadd]
+  congr 1
+  have hlen : i < (vadd (List.map (fun r => dot r x) f.mat) f.bias).length := by
+    rw [vadd_length]; simp [hb, hi]
+  simp only [List.getD_eq_getElem?_getD, List.getElem?_eq_getElem hlen, List.getElem?_eq_getElem hi,
+    List.getElem?_eq_getElem (show i < f.bias.length by omega), Option.getD_some]
+  rw [vadd_getElem]
+  simp
+
+
+/-- `row_iter` / `from_row_iter`: a function is rebuilt from its rows -/
+theorem C16_rows_roundtrip (f : Aff α) (hb : f.bias.length = f.mat.length) : Aff.ofRows f.indim f.rows = f := by
+  unfold Aff.ofRows Aff.rows
+  have h1 : (f.mat.zip f.bias).map (·.1) = f.mat := by
+    rw [List.map_fst_zip]; omega
+  have h2 : (f.mat.zip f.bias).map (·.2) = f.bias := by
+    rw [List.map_snd_zip]; omega
+  cases f
+  simp_all
+
+/-- `from_row_iter`: output `i` of the function built from rows `(aᵢ, bᵢ)` is `aᵢ·x + bᵢ` -/
+theorem C16_from_rows (n : Nat) (rs : List (List α × α)) (x : List α) :
+    (Aff.ofRows n rs).apply x = rs.map (fun rb => dot rb.1 x + rb.2) := by
+  unfold Aff.ofRows Aff.apply matVec
+  induction rs with
+  | nil => simp
+  | cons r rs ih => simp only [List.map_cons, vadd, List.map_map] at ih ⊢; rw [ih]
+
+/-- `remove_zero_columns`: a function does not depend on the inputs whose column is zero — its value at `x` is the
+    value of the reduced function at the remaining coordinates of `x` -/
+theorem C16_remove_zero_columns (f : Aff α) (x : List α) (hf : f.WF) (hx : x.length = f.indim) :
+    (f.removeZeroColumns).apply
+        ((keepOf f.indim (fun j => f.mat.any (fun r => !(r.getD j 0 == 0)))).map (fun j => x.getD j 0))
+      = f.apply x := by
+  unfold Aff.removeZeroColumns Aff.apply
+  simp only
+  congr 1
+  simp only [matVec, List.map_map]
+  apply List.map_congr_left
+  intro r hr
+  have := dot_keep f.indim (fun j => f.mat.any (fun r => !(r.getD j 0 == 0))) r x (hf.1 r hr) hx (by
+    intro j hj hp
+    simp only [List.any_eq_false] at hp
+    have := hp r hr
+    simpa using this)
+  simpa [keepOf] using this
+
+end conversions
 
 end AV
